@@ -88,6 +88,7 @@ type pend struct {
 }
 
 type stats struct {
+	zombieReturns       int64
 	frames              map[string]int64
 	kinds               map[string]int64
 	rst                 map[string]int64
@@ -134,13 +135,15 @@ type conn struct {
 	goawaySeen bool
 	watchDone  chan struct{}
 
-	mu         sync.Mutex
-	hs         map[uint32]*hstate
-	starts     []startRec
-	running    int
-	overLimit  string
-	checkedSt  int
-	maxStarted uint32
+	mu        sync.Mutex
+	hs        map[uint32]*hstate
+	starts    []startRec
+	running   int
+	overLimit string
+	// manualZombies: handlers of reset streams are released by the script, one at a time
+	manualZombies bool
+	checkedSt     int
+	maxStarted    uint32
 
 	cursor     int
 	pending    []pend
@@ -924,6 +927,9 @@ func (c *conn) awaitStart(sid uint32) {
 			// all handler slots are taken by handlers of streams that are already closed
 			// (reset): the server queues the new handler until one returns.
 			c.st.queuedStart++
+			if c.manualZombies {
+				return // the script lets the zombies return one by one itself
+			}
 			c.releaseZombies()
 		}
 	}
